@@ -42,7 +42,7 @@ def scope(tier):
 
 def shards(tier):
     out = [dict(f="F0"), dict(f="F1"), dict(f="F4"), dict(f="F5"),
-           dict(f="F6"), dict(f="F8")]
+           dict(f="F6"), dict(f="F8"), dict(f="F9")]
     out += [dict(f="F2a", k=k) for k in range(16)]
     out += [dict(f="F2b", k=k) for k in range(16)]
     out += [dict(f="F3", k=k) for k in range(16)]
@@ -136,7 +136,10 @@ def judge(case, acc):
     if msg:
         kind = ("order" if "increasing" in msg else "twice" if "times" in msg
                 else "missing" if "missing" in msg else "extra")
-        acc.violation(dict(kind=kind), compact(case),
+        sig = dict(kind=kind)
+        if "history" in case["recipe"]:
+            sig["history"] = True
+        acc.violation(sig, compact(case),
                       msg + " [%s; %d chips; pairs %s]" % (
                           case.get("desc", ""), len(targets),
                           ["(%#x,%#x)" % tuple(p) for p in pairs[:8]]),
@@ -492,6 +495,48 @@ def F8(tier, acc):
     acc.traces += acc.transitions
 
 
+def F9_pool():
+    pool = []
+    for size in (4, 16, 64):
+        pool.append(dict(blocks=[dict(x0=0, y0=0, size=size, cores=[1],
+                                      minus=[])]))
+    pool.append(dict(blocks=[dict(x0=64, y0=64, size=16, cores=[1, 2],
+                                  minus=[[64, 64]])]))
+    pool.append(dict(extra=[[0, 0, [1]]]))
+    pool.append(dict(extra=[[5, 5, [2]], [70, 70, [1]]]))
+    pool.append(dict(extra=[[63, 63, [1]], [3, 3, [17]]]))
+    pool.append(dict(extra=[]))
+    return pool
+
+
+def run_history(recipes, acc, idx):
+    """Consecutive calls in one process: every call is judged against its
+    own targets (nothing selected by an earlier call may reappear)."""
+    for i, rec in enumerate(recipes):
+        tg = expand(rec)
+        judge(dict(recipe=dict(history=recipes[:i + 1], f9_index=idx),
+                   desc="F9 call %d of history %d (%d calls; the histories "
+                   "before it ran in the same process)"
+                   % (i + 1, idx, len(recipes)), targets=tg), acc)
+
+
+def F9_histories():
+    pool = F9_pool()
+    hs = [[a, b] for a in pool for b in pool]
+    hs += [list(t) for t in itertools.permutations(pool[:2] + pool[4:6], 3)]
+    return hs
+
+
+def F9(tier, acc, upto=None):
+    hs = F9_histories()
+    for idx, h in enumerate(hs):
+        if upto is not None and idx > upto:
+            break
+        acc.nontrivial += 1
+        run_history(h, acc, idx)
+    acc.sample(dict(family="F9", histories=len(hs)))
+
+
 def run_shard(params, tier, acc):
     f = params["f"]
     if f in ("F2a", "F2b", "F3", "F7"):
@@ -502,6 +547,10 @@ def run_shard(params, tier, acc):
 
 def replay(case, acc):
     rec = case["recipe"]
+    if "history" in rec:
+        # module state can only come from the calls made before it
+        F9("quick", acc, upto=rec["f9_index"])
+        return
     if "f8" in rec:
         F8("quick", acc)
         return
